@@ -26,6 +26,7 @@ def _standin(rep, tier, seed, only_search=False):
             samples.append({"dgm1": a, "dgm2": b})
     if only_search:
         return
+    evals += dc.huge_typed_certificate(rep, rng)
     from standins.matching_oracle import check_certificate
     seeds = [0, 7] if tier == "quick" else [0, 1, 2, 3, 5, 7, 11, 42]
     res = dc.hash_seed_run("inf", seedcases, seeds)
